@@ -95,3 +95,226 @@ def histories(run, drv):
             run.oracle_fail("history", case, "; ".join(probs)[:400], "history:values:" + mode + ":" + G.stage_of(idx1) + "/" + G.stage_of(idx2))
         else:
             run.oracle_ok("history")
+
+
+# ----------------------------------------------------------------------------- re-reads with a mutated index object
+def _mutable_index(rng, bs):
+    """an index holding ONE mutable object (mask tensor / numpy mask / int tensor / numpy ints / list) on dim 0, two contents for it"""
+    n = bs[0]
+    kind = rng.choice(["mask", "npmask", "tensor", "nparray", "list"])
+    if kind in ("mask", "npmask"):
+        a = [rng.random() < 0.5 for _ in range(n)]
+        b = [rng.random() < 0.5 for _ in range(n)]
+        if sum(a) == sum(b):
+            b = [not x for x in a] if n % 2 or sum(a) * 2 != n else [True] * n
+        obj = torch.tensor(a, dtype=torch.bool) if kind == "mask" else __import__("numpy").array(a, dtype=bool)
+        new = torch.tensor(b, dtype=torch.bool) if kind == "mask" else __import__("numpy").array(b, dtype=bool)
+    else:
+        L1, L2 = rng.randint(1, 3), rng.randint(1, 3)
+        a = [rng.randrange(-n, n) for _ in range(L1)]
+        b = [rng.randrange(-n, n) for _ in range(L1 if kind != "list" else L2)]
+        if kind == "tensor":
+            obj, new = torch.tensor(a), torch.tensor(b)
+        elif kind == "nparray":
+            np = __import__("numpy")
+            obj, new = np.array(a), np.array(b)
+        else:
+            obj, new = list(a), list(b)
+    rest = []
+    for d in bs[1:]:
+        r = rng.random()
+        rest.append(slice(None) if r < 0.5 else (rng.randrange(-d, d) if d else slice(None)) if r < 0.8 else slice(0, d, 2))
+    tail = rng.choice([len(rest), len(rest), 0])
+    form = rng.choice(["bare", "tuple"]) if tail == 0 else "tuple"
+    items = [obj] + rest[:tail]
+    if rng.random() < 0.3:
+        items.insert(1, None)
+    index = obj if form == "bare" else tuple(items)
+    return kind, obj, new, index
+
+
+def _mutate(obj, new):
+    if isinstance(obj, list):
+        obj[:] = new
+    else:
+        obj[...] = new
+
+
+def rereads(run, drv):
+    """a (locked or unlocked) tensordict read twice with the SAME index object whose CONTENT was changed in place in between:
+    each read must give what torch gives for the index as it is at the time of the read (nothing about an index may be
+    remembered by identity). Property oracle only."""
+    rng = run.rng
+    n = 600 if run.tier == "quick" else 5000
+    for _ in range(n):
+        bs = [b for b in G.gen_bs(rng) if b > 0] or [3]
+        spec = S.gen_td_spec(rng, bs)
+        spec["names"] = None
+        locked = rng.random() < 0.7
+        kind, obj, new, index = _mutable_index(rng, bs)
+        run.count("hist.reread", f"{kind}:{'locked' if locked else 'unlocked'}")
+        run.case(("reread", json.dumps(spec, sort_keys=True), kind, repr(index)[:80], locked))
+        td = S.build_td(spec)
+        if locked:
+            td.lock_()
+        case = {"mode": "reread", "td": spec, "idx": ["single", ["none"]], "idx_str": repr(index)[:200], "index_kind": kind, "locked": locked,
+                "new_content": new.tolist() if hasattr(new, "tolist") else list(new)}
+        probs = []
+        for step in (0, 1):
+            if step == 1:
+                _mutate(obj, new)
+            try:
+                ref = torch.zeros(bs)[index]
+            except Exception:
+                break
+            try:
+                with time_limit(TL):
+                    r = td[index]
+            except TimeoutError:
+                raise
+            except Exception as e:
+                probs.append(f"read {step + 1}: torch accepts the index (result {list(ref.shape)}); the tensordict raised {type(e).__name__}: {str(e)[:80]}")
+                break
+            if list(r.batch_size) != list(ref.shape):
+                probs.append(f"read {step + 1}: batch_size {list(r.batch_size)} but torch gives {list(ref.shape)} for the index as it is now")
+                continue
+            for k, f in enumerate(spec["feats"]):
+                want = td.get(f"l{k}")[index]
+                got = r.get(f"l{k}")
+                if got.shape != want.shape or not torch.equal(got, want):
+                    probs.append(f"read {step + 1}: l{k} shape {list(got.shape)} {got.reshape(-1).tolist()[:8]} expected shape {list(want.shape)} {want.reshape(-1).tolist()[:8]}")
+            for j, (extra, feats) in enumerate(spec["nested"]):
+                sub = r.get(f"n{j}")
+                if list(sub.batch_size) != list(ref.shape) + list(extra):
+                    probs.append(f"read {step + 1}: nested n{j} batch_size {list(sub.batch_size)} expected {list(ref.shape) + list(extra)}")
+        if probs:
+            run.oracle_fail("history-reread", case, "; ".join(probs)[:400], f"reread:{kind}:{'locked' if locked else 'unlocked'}")
+        else:
+            run.oracle_ok("history-reread")
+
+
+# ----------------------------------------------------------------------------- two-level sub-tensordicts, judged on the root
+def _simple_index(rng, n, allow_adv=True):
+    """an index for ONE dim of size n (n > 0): (python object, kind)"""
+    import numpy as np
+    r = rng.random()
+    if r < 0.25:
+        return rng.randrange(-n, n), "int"
+    if r < 0.5:
+        a = rng.randrange(0, n)
+        return slice(a, rng.randint(a, n), rng.choice([None, 1, 2])), "slice"
+    if not allow_adv:
+        return slice(None), "slice"
+    L = rng.randint(1, 3)
+    vals = [rng.randrange(-n, n) for _ in range(L)]
+    vals = list(dict.fromkeys(v % n for v in vals))          # distinct rows: the write is then independent of the write order
+    k = rng.choice(["tensor", "list", "nparray", "range", "mask"])
+    if k == "tensor":
+        return torch.tensor(vals), k
+    if k == "list":
+        return list(vals), k
+    if k == "nparray":
+        return np.array(vals), k
+    if k == "range":
+        return range(0, n, 2), k
+    m = [i in vals for i in range(n)]
+    return torch.tensor(m, dtype=torch.bool), k
+
+
+def subsub(run, drv):
+    """`outer = source._get_sub_tensordict(i1); inner = outer._get_sub_tensordict(i2); inner[i3] = value` (also `inner.set_` and
+    a lazy stack as source): a sub-tensordict is a write-through window, so the ROOT source must end up with exactly the
+    elements `[i1][i2][i3]` of every entry replaced (computed by composing the three indices on a provenance tensor) and
+    nothing else changed. Property oracle only."""
+    from tensordict import LazyStackedTensorDict, TensorDict
+    rng = run.rng
+    n = 700 if run.tier == "quick" else 6000
+    for _ in range(n):
+        bs = [rng.randint(2, 4) for _ in range(rng.choice([2, 3]))]
+        feats = [[], [2]] if rng.random() < 0.6 else [[]]
+        source_kind = "td" if rng.random() < 0.8 else "lazy"
+        i1, k1 = _simple_index(rng, bs[0])
+        try:
+            s1 = list(torch.zeros(bs)[i1].shape)
+        except Exception:
+            continue
+        if not s1 or s1[0] == 0:
+            continue
+        i2, k2 = _simple_index(rng, s1[0])
+        try:
+            s2 = list(torch.zeros(s1)[i2].shape)
+        except Exception:
+            continue
+        if not s2 or s2[0] == 0:
+            continue
+        i3, k3 = _simple_index(rng, s2[0])
+        try:
+            s3 = list(torch.zeros(s2)[i3].shape)
+        except Exception:
+            continue
+        vkind = rng.choice(["scalar", "tensor", "tensordict", "dict", "set_"])
+        run.count("hist.subsub", f"{source_kind}:{k1}/{k2}/{k3}:{vkind}")
+        run.case(("subsub", source_kind, json.dumps(bs), repr((i1, i2, i3))[:120], vkind))
+        case = {"mode": "sub-of-sub-write", "td": {"bs": bs, "feats": feats}, "idx": ["single", ["none"]],
+                "idx_str": f"source={source_kind} outer={i1!r} inner={i2!r} write={i3!r} value={vkind}"[:300]}
+        leaves = {f"l{k}": S.prov(bs + f).clone() for k, f in enumerate(feats)}
+        td = TensorDict({k: v.clone() for k, v in leaves.items()}, batch_size=bs)
+        root = td
+        if source_kind == "lazy":
+            root = LazyStackedTensorDict.lazy_stack(list(td.unbind(0)), 0)
+        # expected content of every entry of the root
+        expected = {}
+        for k, f in enumerate(feats):
+            e = leaves[f"l{k}"].clone()
+            offs = S.prov(bs + f)[i1][i2][i3].reshape(-1)
+            e.view(-1)[offs] = -1
+            expected[f"l{k}"] = e
+        try:
+            with time_limit(TL):
+                outer = root._get_sub_tensordict(i1)
+                inner = outer._get_sub_tensordict(i2)
+                if vkind == "scalar":
+                    inner[i3] = -1
+                elif vkind == "tensor":
+                    inner[i3] = torch.tensor(-1)
+                elif vkind == "tensordict":
+                    inner[i3] = TensorDict({f"l{k}": torch.full(s3 + f, -1) for k, f in enumerate(feats)}, batch_size=s3)
+                elif vkind == "dict":
+                    inner[i3] = {f"l{k}": torch.full(s3 + f, -1) for k, f in enumerate(feats)}
+                else:
+                    for k, f in enumerate(feats):
+                        cur = inner.get(f"l{k}").clone()
+                        cur[i3] = -1
+                        inner.set_(f"l{k}", cur)
+                got = {f"l{k}": (root.get(f"l{k}") if source_kind == "td" else root.to_tensordict().get(f"l{k}")) for k in range(len(feats))}
+            ok = True
+        except TimeoutError:
+            raise
+        except Exception as e:
+            ok, what = False, f"{type(e).__name__}: {str(e)[:120]}"
+        site = "history-subsub" if source_kind == "td" else "history-subsub-lazy"
+        judge = run
+        if not ok:
+            judge.oracle_fail(site, case, f"the three indices are valid for torch; the write through the sub-tensordict raised {what}", f"subsub:raises:{source_kind}:{vkind}")
+            continue
+        probs = []
+        for key, e in expected.items():
+            if got[key].shape != e.shape or not torch.equal(got[key], e):
+                changed = int((got[key] != leaves[key]).sum())
+                probs.append(f"{key} of the root: {changed} elements changed, expected {int((e != leaves[key]).sum())} ({got[key].reshape(-1).tolist()[:12]} vs {e.reshape(-1).tolist()[:12]})")
+        if probs:
+            judge.oracle_fail(site, case, "; ".join(probs)[:400], f"subsub:root-content:{source_kind}:{'adv' if k1 not in ('int', 'slice') else 'basic'}-outer")
+        else:
+            judge.oracle_ok(site)
+
+
+class _CountOnly:
+    """outside the verdict domain (lazy-stack sources): failures are counted in the evidence, not judged"""
+    def __init__(self, run):
+        self.run = run
+
+    def oracle_fail(self, site, case, what, fingerprint=None):
+        self.run.count("hist.subsub.lazy.observed", fingerprint or site)
+
+    def oracle_ok(self, site):
+        self.run.count("hist.subsub.lazy.observed", "ok")
